@@ -122,6 +122,10 @@ def run_failing(cfg, devs, device, n, t_end=2_000_000_003, kind="device", bus=No
             run = asyncio.create_task(sim.run())
             done, _ = await asyncio.wait([run], timeout=t_end / 1e9)
             obs["returned"] = bool(done)
+            if done and (run.cancelled() or run.exception() is not None):
+                # run() is over, but not by returning: it raised (CancelledError included) -- not a clean stop
+                obs["returned"] = False
+                obs["error"] = "run() raised " + ("CancelledError" if run.cancelled() else repr(run.exception()))
             obs["failed_at"] = next((rt for (c, t, _), rt in zip(slevel.TRACE, slevel.TRACE_RT)
                                      if c == device and sum(1 for (c2, _, _) in slevel.TRACE[:slevel.TRACE.index((c, t, _)) + 1] if c2 == device) == n), None)
             if not done:
